@@ -272,3 +272,26 @@ CHECKS['C14'] = dict(
     units=[
         U('proc', 'TestVerifC14_Sessions', q(320, 16, cap=900), q(6400, 16, cap=3000), needs_fzf=True),
     ])
+
+CHECKS['C15'] = dict(
+    title='The screen shows the actual state',
+    rule='live sessions (tmux capture-pane vs GET state after every step): 0-70 printable ASCII lines (short / medium / longer than the window / with runs of blanks) x window 24-90 x 8-24 x 3 layouts x info default/inline/hidden x --multi x --header (0-2 lines) x --header-lines (0-2) x --header-first x sort on/off, '
+         'explicit ASCII pointer/marker/ellipsis; histories of 3-25 POSTs (navigation, page, pos, selection actions, query edits). Oracle: one prompt row = prompt + query; info shows matched/total (and selected with --multi); '
+         'list rows form one contiguous block of consecutive ranks in the direction of the layout, contain the current item, pointer exactly on the current item, marker exactly on selected items, text complete when it fits else cut with the ellipsis and a piece of the line, no row wider than the window; '
+         'every header line exactly once and never inside the list; hidden results only when no row is left empty. non-trivial = a step that changed only some rows (cursor move / toggle) with a truncated line or more lines than rows',
+    assumptions=['--no-hscroll, --no-scrollbar, --color=bw and an ASCII pointer/marker/ellipsis are set so that the captured text can be parsed exactly; wide-character width bounds are covered by the C14 sessions (no row wider than the pane is not asserted there)',
+                 'the exact row of header lines is not asserted (layout-specific), only that they are shown once and outside the list'],
+    units=[
+        U('proc', 'TestVerifC15_Sessions', q(320, 16, cap=900), q(6400, 16, cap=3000), needs_fzf=True),
+    ])
+
+CHECKS['C20'] = dict(
+    title='The preview always catches up with the focused line',
+    rule='live sessions (tmux) with an instrumented preview command that logs its pid and arguments, prints a token derived from them and then ends at once / after 250 ms / never / after incremental output; templates over {n} {q} {} or {f} and optionally {+}; '
+         'histories of 3-16 steps (cursor moves, bursts of moves faster than a process starts, query edits, toggles, refresh-preview, toggle-preview, change-preview, change-preview-window) with gaps of 0-200 ms; exit by accept / abort / SIGTERM. '
+         'At quiescence: the command started last has exactly the arguments of the focused line / query / selection, its token is on the screen, no superseded run is alive; after exit no preview process and no temp file is left. '
+         'non-trivial = a preview was superseded while it could still be running',
+    assumptions=['timing is varied, not controlled; a state that stays wrong for 4 s without change is a violation, the 40 s cap otherwise'],
+    units=[
+        U('proc', 'TestVerifC20_Sessions', q(160, 16, cap=900), q(2400, 16, cap=3000), needs_fzf=True),
+    ])
